@@ -86,6 +86,11 @@ func c14Strings(e *env) []string {
 	add(" ", "  ", " a", "a ", " a ", "a  b", "\t", "a\tb", "a\n b", "a \nb", "\n", "\r\n", "a\r\nb", ",", "a,b", "a, b", ":", "a:b", "=", "a=b", "&", "&amp;", "<b>", "1 < 2 > 0", "%", "%s", "%!", "$", "$$", "$1", "$&")
 	add("null", "true", "undefined", "0", "-1", "1e3", "NaN", "constructor", "__proto__", "toString", "hasOwnProperty", "length", "if", "class", "default", "")
 	add(strings.Repeat("a", 65536), strings.Repeat("'\"\\\n\u2028</script>\U0001F600", 4096), strings.Repeat("\u00E9", 40000))
+	// long strings of multi-byte characters at every byte alignment (a cut at a fixed byte offset must fall inside one)
+	for off := 0; off < 4; off++ {
+		pad := strings.Repeat("x", off)
+		add(pad+strings.Repeat("\u00e9", 3000), pad+strings.Repeat("\u2028", 2500), pad+strings.Repeat("\U0001F600", 1500), pad+strings.Repeat("\u65e5'\u00e9\\\U0001F600", 700))
+	}
 	alphabet := []string{"'", "\"", "\\", "\n", "\r", "\t", "\x00", "\x01", "\x7f", "<", ">", "&", "=", "/", "*", "{", "}", " ", "a", "Z", "0", "\u2028", "\u2029", "\u00E9", "\u00AD", "\U0001F600", "</script>", "\u200B", ",", ":", "$", "`", ";", "(", ")", "+", "-", "%", "#", "|", "?"}
 	n := 120 * e.scale
 	for i := 0; i < n; i++ {
@@ -231,7 +236,9 @@ func c14EchoBundles(e *env, strs []string) []*c14Bundle {
 			if cur == nil {
 				cur = &c14Bundle{Stream: "echo", Globals: map[string]interface{}{}}
 			}
-			gname := fmt.Sprintf("G_%d_%d", si, ci)
+			// global names recur from bundle to bundle with other values (a name-keyed cache in the generator
+			// would serve a stale literal); two consecutive strings, which may share a bundle, differ in parity
+			gname := fmt.Sprintf("G_%d_%d", si%2, ci)
 			body, gl, want, ok := c14EchoBodyW(ctx, s, gname)
 			if !ok {
 				continue
